@@ -55,6 +55,7 @@ class SimThread:
 class Sched:
     def __init__(self, chooser, budget=60.0, max_events=200000):
         self.chooser = chooser
+        self.times = []
         self.pre_op = None         # callable(sim thread) -> exception to raise before its next operation, or None
         self.threads: list[SimThread] = []
         self.by_ident: dict[int, SimThread] = {}
@@ -88,6 +89,7 @@ class Sched:
                 st.status = "done"
                 if not self.aborting:
                     self.trace.append([st.name, "exit", "raised" if st.exc is not None else "ok"])
+                    self.times.append(self.now)
                 self._handoff(None)
 
         st.real = _rt.Thread(target=body, name="sim-" + name, daemon=True)
@@ -100,6 +102,7 @@ class Sched:
 
     def log(self, *label):
         self.trace.append([self.cur.name if self.cur else "?", *label])
+        self.times.append(self.now)          # the virtual raw instant of every event (parallel to the trace)
         if len(self.trace) > self.max_events:
             self._abort(Deadlock("event budget exceeded"))
 
@@ -490,6 +493,8 @@ class SimTimeModule(types.ModuleType):
         return OFF_MONO + self._now()
 
     def sleep(self, d):
+        if d < 0:
+            raise ValueError("sleep length must be non-negative")      # as the real time.sleep does
         if SCHED and SCHED.me():
             SCHED.yield_point()
             SCHED.log("sleep")
